@@ -149,8 +149,9 @@ def observe(cfg, want):
     c2 = dict(cfg, D=cfg["D2"], u=cfg["u2"], beta=cfg["beta2"])
     c12 = dict(cfg, D=combo(cfg, "D", "D2", lam, mu), u=combo(cfg, "u", "u2", lam, mu),
                beta=combo(cfg, "beta", "beta2", lam, mu))
-    o2 = opsdrive.observe(c2, ["Mdiff", "Mconv", "Mupalt", "Msrc"])
-    o12 = opsdrive.observe(c12, ["Mdiff", "Mconv", "Mupalt", "Msrc"])
-    obs["Lin"] = {"Mdiff2": o2["Mdiff"], "Mdiff12": o12["Mdiff"], "Mconv2": o2["Mconv"], "Mconv12": o12["Mconv"],
+    o2 = opsdrive.observe(c2, ["Mdiff", "Mconv", "Mupalt", "Msrc", "tvdnamed"])
+    o12 = opsdrive.observe(c12, ["Mdiff", "Mconv", "Mupalt", "Msrc", "tvdnamed"])
+    obs["Lin"] = {"tvd2": o2["tvdnamed"], "tvd12": o12["tvdnamed"],
+                  "Mdiff2": o2["Mdiff"], "Mdiff12": o12["Mdiff"], "Mconv2": o2["Mconv"], "Mconv12": o12["Mconv"],
                   "Mup2": o2["Mupalt"], "Mup12": o12["Mupalt"], "Msrc2": o2["Msrc"], "Msrc12": o12["Msrc"]}
     return obs
